@@ -7,7 +7,7 @@ import subprocess
 from lib import common, fuzz, vbuild
 
 PROP = 'C02'
-RULE = ('(i) bounded-exhaustive enumeration of all sequences of 35 line-kind representatives (the plain line calls every kind of definition; one composite kind is blank+indented continuation) up to length L (quick L=3, thorough L=4), every ordered pair of kinds repeated 1200 (quick) or 3000 (thorough) times as one long document, and '
+RULE = ('(i) bounded-exhaustive enumeration of all sequences of 39 line-kind representatives (the plain line calls every kind of definition; one composite kind is blank+indented continuation) up to length L (quick L=3, thorough L=4), every ordered pair of kinds repeated 1200 (quick) or 3000 (thorough) times as one long document, and '
         'random sequences of length 5..12, each through 7 writers (html, latex, beamer, memoir, fodt, opml, itmz) x {MMD, compatibility}; '
         '(ii) coverage-guided fuzzing of arbitrary documents through the same writers/modes (+optional complete/process-html/critic bits). '
         'Oracle per conversion: control returns (exit() intercepted), fd 2 carries no "Unknown token type" / "Parser failed" / "Parser '
@@ -149,7 +149,7 @@ def run(tier):
     for sig, paths in cl.items():
         failures.append((sig, paths[0], ''))
     ev.extra['exhaustive'] = True
-    ev.extra['exhaustive_bound'] = 'all 35^k line-kind sequences for k <= %d, 7 writers x 2 modes' % L
+    ev.extra['exhaustive_bound'] = 'all 39^k line-kind sequences for k <= %d, 7 writers x 2 modes' % L
     rcode = 0
     seen = set()
     for sig, path, detail in failures:
